@@ -15,13 +15,22 @@ import (
 )
 
 func TestMain(m *testing.M) {
-	ev.Note("rule", "C03: (a) enumeration of small objects: every combination of per-property flags (required, required_if / required_if_not / conflicts towards the other properties, default none/valid/empty-valued, disabled) x every subset of supplied properties x {map-based, struct-mapped with pointer fields, struct-mapped with value fields where the documented precondition allows it}: exhaustive for 1 and 2 properties, a reduced flag grid for 3; each case is judged on Unserialize (raw) and on Validate/Serialize (native value built from the same presence set). (b) rapid-generated nested objects and one-of schemas (int/string keys, inlined or not, object/ref/scope members, map or struct members) with valid-by-construction inputs and raw mutations of them: dropped/added/undeclared/non-string keys, nil values, disabled properties supplied, unknown/missing/mistyped/numeric-string discriminators, shorthand for single- and multi-property objects. Oracle: reference interpreter (key check, per-property denotation, defaulting incl. the documented sub-object default propagation, presence rules after defaulting, disabled-in-use, shorthand, discriminator dispatch with strip/keep) in both directions, result compared with the denoted value. Non-trivial: a presence rule or default is decisive (flipping one supplied bit changes the verdict) or the input is a mutation / shorthand / converted discriminator; distinct by (schema, input).")
+	ev.Note("rule", "C03: (a) enumeration of small objects: every combination of per-property flags (required, required_if / required_if_not / conflicts towards the other properties, default none/valid/empty-valued, disabled) x every subset of supplied properties x {map-based, struct-mapped with pointer fields, struct-mapped with value fields where the documented precondition allows it}: exhaustive for 1 and 2 properties, a reduced flag grid for 3; each case is judged on Unserialize (raw) and on Validate/Serialize (native value built from the same presence set). (b) rapid-generated nested objects and one-of schemas (int/string keys, inlined or not, object/ref/scope members, map or struct members) with valid-by-construction inputs and raw mutations of them: dropped/added/undeclared/non-string keys, nil values, disabled properties supplied, unknown/missing/mistyped/numeric-string discriminators, shorthand for single- and multi-property objects. (c) a complete one-of dispatch grid: {string,int} keys x inlined/non-inlined x map/struct members x key sets incl. the zero-value key x every discriminator representation x payloads for the right / other / no member x both raw map types, each accepted value then also checked in native form (Validate, Serialize, re-denotation). Oracle: reference interpreter (key check, per-property denotation, defaulting incl. the documented sub-object default propagation, presence rules after defaulting, disabled-in-use, shorthand, discriminator dispatch with strip/keep) in both directions, result compared with the denoted value. Non-trivial: a presence rule or default is decisive (flipping one supplied bit changes the verdict) or the input is a mutation / shorthand / converted discriminator; distinct by (schema, input).")
 	ev.RegisterReplay("unserialize", func(t *testing.T, raw json.RawMessage) {
 		var c oracle.Case
 		if err := json.Unmarshal(raw, &c); err != nil {
 			t.Fatal(err)
 		}
 		if msg, _, _, _ := oracle.Unserialize(c); msg != "" {
+			t.Fatal(msg)
+		}
+	})
+	ev.RegisterReplay("oneof", func(t *testing.T, raw json.RawMessage) {
+		var c oracle.Case
+		if err := json.Unmarshal(raw, &c); err != nil {
+			t.Fatal(err)
+		}
+		if msg, _ := runOneOfCase(nil, c); msg != "" {
 			t.Fatal(msg)
 		}
 	})
@@ -41,7 +50,7 @@ func TestReplay(t *testing.T) { ev.RunReplay(t) }
 
 // nativeCase: the native value is built from the model map denoted by Raw under the loose reading of the spec.
 type nativeCase struct {
-	Spec    *spec.Spec     `json:"spec"`
+	Spec    *spec.Spec       `json:"spec"`
 	Present map[string]val.V `json:"present"` // property -> canonical raw of its value
 }
 
